@@ -49,7 +49,7 @@ if os.path.exists(kf):
     a = json.load(open(kf)); b = json.load(open(os.path.join(dst, "KNOWN_FINDINGS.json")))
     ids = {x["id"] for x in b["findings"]}
     for x in a.get("findings", []):
-        if x["id"] not in ids: b["findings"].append(x); print("finding +", x["id"])
+        if x["id"] not in ids and x.get("property") == pid: b["findings"].append(x); print("finding +", x["id"])
     json.dump(b, open(os.path.join(dst, "KNOWN_FINDINGS.json"), "w"), indent=1)
 # 6. Cargo.toml deps
 c_src = open(os.path.join(src, "harness/Cargo.toml")).read(); c_dst = open(os.path.join(dst, "harness/Cargo.toml")).read()
